@@ -106,7 +106,7 @@ def kani_cmd(unit, harnesses, export_json, jobs, timeout_s, extra=None):
             cmd += ["--fail-fast"]  # seeded-change runs only: stop at the first failing harness
     cmd += ["--exact"]
     for h in harnesses:
-        cmd += ["--harness", unit["mod_path"] + "::" + h["name"]]
+        cmd += ["--harness", h.get("_full") or (unit["mod_path"] + "::" + h["name"])]
     return cmd
 
 
@@ -324,6 +324,7 @@ def main():
     all_P = True
     bounds = []
     tools = {}
+    group_results = {}
 
     for unit in P["units"]:
         lost = anchor_scan(unit)
@@ -367,8 +368,28 @@ def main():
         if not hs:
             continue
         assumptions += assumption_scan([unit["module"]] + unit.get("extra_files", []))
-        results, raw, cmd, compile_failed, wall = run_kani_unit(unit, hs, args.jobs, workdir)
-        cmds.append(cmd)
+        # All contract modules of one crate are verified by ONE cargo kani invocation (their harnesses
+        # then run in parallel); the result is shared by the units of that crate.
+        gkey = unit["crate_dir"]
+        if gkey not in group_results:
+            g_units, g_hs, g_flags = [], [], []
+            for u2 in P["units"]:
+                if u2["engine"] != "kani" or u2["crate_dir"] != gkey or anchor_scan(u2):
+                    continue
+                hs2 = [h for h in u2["harnesses"] if h.get("tier", "quick") in wanted]
+                if args.only:
+                    hs2 = [h for h in hs2 if re.search(args.only, h["name"])]
+                for h in hs2:
+                    h2 = dict(h)
+                    h2["_full"] = u2["mod_path"] + "::" + h["name"]
+                    g_hs.append(h2)
+                g_flags += u2.get("z_flags", [])
+                g_units.append(u2["id"])
+            g_unit = dict(unit, id="+".join(g_units), z_flags=sorted(set(g_flags)))
+            group_results[gkey] = run_kani_unit(g_unit, g_hs, args.jobs, workdir)
+            cmds.append(group_results[gkey][2])
+        results, raw, cmd, compile_failed, wall = group_results[gkey]
+        results = dict(results)
         tools.update({k: v for k, v in results.pop("__tools__", {}).items() if isinstance(v, str)})
         if compile_failed:
             tail = "\n".join(raw.splitlines()[-40:])
